@@ -2,7 +2,7 @@
    `clamp` selects the variant of the shortening rule: false = code as found in the pinned tree,
    true = repaired code (fixes/C37-clamp-shortened-length.patch); theorems quantified over clamp hold for both. *)
 From Coq Require Import List NArith Arith Bool.
-From Verif.C37 Require Import Model Spec Proofs Families More Global.
+From Verif.C37 Require Import Model Spec Proofs Families More Statics Global.
 Import ListNotations.
 
 (* every name GetLengthLimitedID returns is at most maxLength bytes long (both variants of the rule) *)
@@ -207,12 +207,13 @@ Print Assumptions c37_group_content_injective.
 (* MAIN: over every kind of identity at once (chains, IP sets, nftables sets, NFLOG prefixes, veth names, VM
    handle IDs).  If the specification demands different names for a and b (same namespace, both in the domain,
    a <> b) and the model gives them one name, then two different texts have equal digests on at least their
-   first 11 characters. *)
+   first 11 characters -- or {a,b} is the one clash with a fixed chain name: the chain cali-arp-dispatch and the
+   ARP chain of a workload interface called "dispatch" (see c37_static_arp_dispatch_refuted). *)
 Theorem c37_distinct_identities_distinct_names : forall clamp H256 H224 H3 H1,
   (forall x, length (H224 x) = 38) -> (forall x, has colon (H224 x) = false) -> forall a b n,
   must_differ a b = true ->
   model_name clamp H256 H224 H3 H1 a = Some n -> model_name clamp H256 H224 H3 H1 b = Some n ->
-  strong_collision H256 H224 H3 H1.
+  strong_collision H256 H224 H3 H1 \/ arp_clash a b.
 Proof. exact apart_mod_hash. Qed.
 Print Assumptions c37_distinct_identities_distinct_names.
 
@@ -222,11 +223,13 @@ Theorem c37_model_fits : forall clamp H256 H224 H3 H1 i n m,
 Proof. exact model_fits. Qed.
 Print Assumptions c37_model_fits.
 
-(* the specification oracle accepts the model's output on every list of identities, absent digest collisions *)
+(* the specification oracle accepts the model's output on every list of identities, absent digest collisions
+   and absent the cali-arp-dispatch pair *)
 Theorem c37_model_meets_spec : forall clamp H256 H224 H3 H1,
   (forall x, length (H224 x) = 38) -> (forall x, has colon (H224 x) = false) ->
   ~ strong_collision H256 H224 H3 H1 -> forall l,
   (forall i, In i l -> model_name clamp H256 H224 H3 H1 i <> None) ->
+  (forall a b, In a l -> In b l -> ~ arp_clash a b) ->
   ok_case_obs (map (model_obs clamp H256 H224 H3 H1) l) = true.
 Proof. exact oracle_accepts_model. Qed.
 Print Assumptions c37_model_meets_spec.
@@ -317,3 +320,24 @@ Theorem c37_vm_handle_dotted_network_refuted : forall clamp H,
     vm_handle_id clamp H net ns vm = vm_handle_id clamp H net' ns' vm' /\ vm_handle_id clamp H net ns vm <> None.
 Proof. exact vm_handle_dotted_network_clash. Qed.
 Print Assumptions c37_vm_handle_dotted_network_refuted.
+
+(* ---------- chains with fixed names (rule_defs.go) ---------- *)
+(* a fixed chain name equals a name built from a family prefix only in one way: cali-arp- ++ "dispatch" *)
+Theorem c37_static_chains_apart : forall s p x,
+  In s static_chains -> In p chain_prefixes -> p ++ x = s ->
+  p = pfx_arp /\ s = arp_dispatch /\ x = iface_dispatch.
+Proof. exact static_apart. Qed.
+Print Assumptions c37_static_chains_apart.
+
+Theorem c37_static_chains_distinct_and_fit :
+  NoDup static_chains /\ forall s, In s static_chains -> length s <= 28.
+Proof. exact (conj static_nodup static_fits). Qed.
+Print Assumptions c37_static_chains_distinct_and_fit.
+
+(* REFUTED (finding): "fixed chain names never equal endpoint chain names" -- a workload interface called
+   "dispatch" (valid, 8 bytes) gets ARP chain cali-arp-dispatch, the name of the ARP dispatch chain itself *)
+Theorem c37_static_arp_dispatch_refuted : forall clamp H nft,
+  endpoint_chain clamp H pfx_arp iface_dispatch (max_chain nft) = Some arp_dispatch /\
+  In arp_dispatch static_chains /\ In pfx_arp endpoint_prefixes /\ length iface_dispatch <= 15.
+Proof. exact arp_dispatch_clash. Qed.
+Print Assumptions c37_static_arp_dispatch_refuted.
